@@ -72,6 +72,14 @@ CHECKS = {
         ],
         "assumptions": ["Go's memory model: race-free programs are sequentially consistent; the scheduler explores sequentially consistent interleavings of the instrumented points only"],
     },
+    "C16": {
+        "level": "model_checking",
+        "units": [
+            unit("c16-stop", "gabikeys", ["zz_verif_c16_stop_test.go"], "^TestVerifC16Stop$", shards={"quick": 16, "thorough": 16},
+                 instr=["safeprime/safeprime.go", "gabikeys/keys.go"]),
+        ],
+        "assumptions": [],
+    },
     "_FIX": {
         "level": "other",
         "units": [unit("genfix", "root", [], "^TestVerifGenFixtures$", env={"VERIF_GENFIX": "1"}, timeout=1800)],
